@@ -173,8 +173,18 @@ def _run_case_inner(ctx, case):
                     orig[(k.change, k.address_index)] = k.address
             n_cmp = 0
             for (chg, idx), addr in sorted(orig.items())[:8]:
+                # one request object for the original and for the restored wallet: what a caller comparing the two does
+                request = [chg, idx]
                 try:
-                    k3 = w3.key_for_path([chg, idx])
+                    k0 = w.key_for_path(request, account_id=acc_wo)
+                except Exception as e:
+                    raise Discrepancy('restore.original.key', 'key_for_path([%d, %d]) for a key handed out before '
+                                      'raised %r' % (chg, idx, e), case)
+                if k0.address != addr:
+                    raise Discrepancy('restore.original.address', 'key_for_path([%d, %d]) gives %s (%s), the key handed '
+                                      'out at this change/index was %s' % (chg, idx, k0.address, k0.path, addr), case)
+                try:
+                    k3 = w3.key_for_path(request)
                     a3 = k3.address
                     priv = k3.key().is_private
                 except Exception as e:
@@ -362,9 +372,13 @@ def _run_ops(ctx, case, w, uri, master, flags, reopen=True):
                     flags.add('default_account_changed')
             elif name == 'key_for_path':
                 # no account named: the wallet's default account
-                k = w.key_for_path([op['change'], op['index']], witness_type=op.get('wt')) if op.get('wt') else \
-                    w.key_for_path([op['change'], op['index']])
+                request = [op['change'], op['index']]
+                k = w.key_for_path(request, witness_type=op.get('wt')) if op.get('wt') else w.key_for_path(request)
                 note(k, wt, default[0], op['change'], op['index'])
+                if op['index'] % 2:
+                    # the caller's request object serves a second request
+                    k = w.key_for_path(request, witness_type=op.get('wt')) if op.get('wt') else w.key_for_path(request)
+                    note(k, wt, default[0], op['change'], op['index'])
             elif name == 'keys_for_path':
                 ks = w.keys_for_path([op['change'], op['index']], number_of_keys=op['count'])
                 for j, k in enumerate(ks):
